@@ -8,14 +8,23 @@ from vlib import core
 TRUST = ("Lean 4.33 kernel; axioms at most propext/Classical.choice/Quot.sound (audited per run); "
          "hand-written model tied to the C++ by the correspondence harness (differential, generator-bounded); ")
 MANIFEST = dict(
-  text=("Theorems (Props/C19.lean) about the post-parse logic of the LibSVM and CSV importers for every list of parsed "
-        "records, every dimension argument and batch size: the repaired LibSVM logic returns an error or a well-formed "
-        "dataset and never writes out of bounds; the logic as it was before the repair does so only for strictly "
-        "increasing indices (decide-checked out-of-bounds witnesses otherwise). The model, including a lexer for the "
-        "LibSVM line grammar, is tied to the real importers by an exact line-by-line correspondence on generated and "
-        "malformed files under ASan/UBSan with an allocation limit and a watchdog."),
-  note=TRUST + "boost::spirit's own parsing and memory safety are runtime evidence only (sanitizers over the generated files); "
-       "numeric values are compared only for tokens of at most 15 digits and one-digit exponents (others run for memory safety only).",
+  text=("Theorems (Props/C19.lean) about an executable model of the importers' logic, for every list of parsed records, every "
+        "dimension argument, batch size and value type: the LibSVM logic with the proposed repair returns the library's "
+        "exception or a well-formed dataset (equal dimensions = shape, sparse indices increasing and in range, labels below "
+        "numberOfClasses, one element per record, batches adding up and bounded) and never writes out of bounds "
+        "(import_wellformed_or_error_svm, sparse_writes_in_bounds); the logic as it is in the tree does so for strictly "
+        "increasing indices only (sparse_writes_in_bounds_partial, with decide-checked out-of-bounds / empty-input witnesses) and "
+        "agrees with the repaired one on such inputs (repaired_eq_current); the three CSV overload families return the "
+        "exception or a well-formed dataset with batches <= requested (import_wellformed_or_error_csv_*, via lemmas about "
+        "optimalBatchSizes); exported records are read back unchanged at token level (csv_roundtrip, csv_roundtrip_regression). "
+        "The model — a PEG-with-skipper interpreter with the phrase_parse grammars of Csv.cpp/SparseData.cpp, spirit's numeric "
+        "lexers, exact decimal->double conversion, and the post-parse logic — is tied to the real importers by an exact "
+        "line-by-line correspondence on grammar-directed files, byte-level mutations and exporter->importer round trips, for all "
+        "14 LibSVM/CSV overloads, under ASan/UBSan with an allocation limit and a watchdog."),
+  note=TRUST + "boost::spirit's own parsing and memory safety, and 'never hangs' are runtime evidence only (sanitizers + watchdog over the generated "
+       "files; the PEG model's loops are total by construction, a proof that they never report `hang` for the eight grammars is not done); "
+       "numeric values are compared only for tokens of at most 15 digits and one-digit exponents (others run for memory safety + oracle only); "
+       "the scalar CSV readers (Data<int/unsigned/float/double>) are not covered; libsvm_roundtrip at token level is only exercised (rt stream), not proved.",
   technique="Lean 4 proof about an executable importer model + differential correspondence with the C++ (ASan/UBSan)",
   design="§6 C19")
 
